@@ -376,3 +376,13 @@ Example oct_example :
   o_entails (mkLC INEQ (mkLE [(1, 0%N)] 1)) z = false /\
   z_is_bot (o_assume 4 [mkLC EQ (mkLE [(1, 0%N); (1, 1%N)] (-1)); mkLC EQ (mkLE [(1, 0%N); (-1, 1%N)] 0)] (o_top 4)) = true.
 Proof. vm_compute. repeat split; reflexivity. Qed.
+
+Theorem oct_history_sound n h rs cs :
+  grel (oct_dom n) ogamma rs cs -> Forall (gop_okc (fun _ => True)) h ->
+  grel (oct_dom n) ogamma (grun (oct_dom n) rs h) (fold_left cstepg h cs).
+Proof. exact (grun_sound (oct_dom n) ogamma (fun _ => True) (oct_sound_dom n) h rs cs). Qed.
+
+Theorem oct_exact_partial n :
+  sound_dom (oct_dom n) ogamma (fun _ => True) /\
+  (forall c z s, o_entails c z = true -> ogamma z s -> sat c s).
+Proof. exact (conj (oct_sound_dom n) o_entails_sound). Qed.
